@@ -16,6 +16,8 @@ for d in sorted(glob.glob(os.path.join(V, 'seeded', '*'))):
     if len(summ) > 150: summ = summ[:147] + '...'
     if len(need) > 150: need = need[:147] + '...'
     mark = 'yes' if tgt in caught else ('by others' if caught else ('no (see notes)'))
+    if m.get('invalidated_by'):
+        mark += ' [before ' + m['invalidated_by'] + ': the demonstration relied on the behaviour that repair removed]'
     rows.append('| %s | %s | %s | %s | %s |' % (name, summ, need, ' '.join(caught) or '-', mark))
 tab = ['| seed | change | needs to manifest | quick checks that exit 1 | target check catches it |', '|---|---|---|---|---|'] + rows
 p = os.path.join(V, 'DESIGN.md')
@@ -23,4 +25,7 @@ s = open(p).read()
 new = '<!-- SEEDED-TABLE-BEGIN -->\n' + '\n'.join(tab) + '\n<!-- SEEDED-TABLE-END -->'
 s = re.sub(r'<!-- SEEDED-TABLE-BEGIN -->.*<!-- SEEDED-TABLE-END -->', lambda m: new, s, flags=re.S)
 open(p, 'w').write(s)
-print(len(rows), 'seeds tabulated')
+tot = len(rows)
+anyc = sum(1 for r in rows if not r.split('|')[4].strip() == '-')
+tg = sum(1 for r in rows if r.split('|')[5].strip().startswith('yes'))
+print(tot, 'seeds tabulated;', anyc, 'caught by some check;', tg, 'by the target check')
